@@ -165,7 +165,9 @@ def group_by_until_(
                 observer.on_error(ex)
 
             def on_completed() -> None:
-                for wrt in writers.values():
+                # completing a group can expire it (a duration derived from the
+                # group itself), which removes its entry from writers
+                for wrt in list(writers.values()):
                     wrt.on_completed()
 
                 observer.on_completed()
